@@ -25,6 +25,9 @@ type refineCfg struct {
 	PeerClose bool  `json:"peerclose"`
 	PeerEcho  bool  `json:"peerecho"`
 	CloseNow  bool  `json:"closenow"` // a fifth actor "N" calls CloseNow at a seeded moment (the model's Extra "N")
+	// Ctx: the Writer's and the Ping's contexts are cancelled by the application at seeded moments -- before, inside or long after
+	// the call (the model's CtxProcs = {A, P}); each cancellation is announced ("CtxCancel") before cancel() is called
+	Ctx bool `json:"ctx"`
 }
 
 func runRefine(cfg refineCfg) {
@@ -34,6 +37,13 @@ func runRefine(cfg refineCfg) {
 		return
 	}
 	ws.LogPeerScripted(c)
+	slow := time.Duration(0)
+	if cfg.Ctx {
+		// a narrow transport and a peer that takes its time: frames are in flight for a while, so that a cancellation can hit a
+		// frame write (timeoutLoop firing on the armed context) and not only lock waits and the wait for the pong
+		raw.In.Cap = 5
+		slow = time.Duration(50+rng.Intn(250)) * time.Microsecond
+	}
 	var smu sync.Mutex
 	send := func(f ws.Frame) {
 		f.Masked = !cfg.Client
@@ -52,6 +62,9 @@ func runRefine(cfg refineCfg) {
 		for {
 			n, err := raw.In.Read(tmp)
 			acc = append(acc, tmp[:n]...)
+			if slow > 0 {
+				time.Sleep(slow)
+			}
 			for {
 				f, k, e := ws.DecodeFrame(acc)
 				if e != nil {
@@ -103,8 +116,30 @@ func runRefine(cfg refineCfg) {
 		}()
 	}
 	us := func(n int) time.Duration { return time.Duration(rng.Intn(n)) * time.Microsecond }
+	actx, acancel := context.WithCancel(bg)
+	pctx, pcancel := context.WithCancel(bg)
+	defer acancel()
+	defer pcancel()
+	if cfg.Ctx {
+		da, dp, which := us(2500), us(2500), rng.Intn(4)
+		wg.Add(1)
+		go func() {
+			defer wg.Done()
+			websocket.VerifEmit(c, "Actor", "X", 0, 0)
+			if which&1 != 0 {
+				time.Sleep(da)
+				websocket.VerifEmit(c, "CtxCancel", "A", 0, 0)
+				acancel()
+			}
+			if which&2 != 0 {
+				time.Sleep(dp)
+				websocket.VerifEmit(c, "CtxCancel", "P", 0, 0)
+				pcancel()
+			}
+		}()
+	}
 	actor("A", us(800), func() {
-		w, err := c.Writer(bg, websocket.MessageText)
+		w, err := c.Writer(actx, websocket.MessageText)
 		if err != nil {
 			return
 		}
@@ -113,7 +148,7 @@ func runRefine(cfg refineCfg) {
 		}
 		w.Close()
 	})
-	actor("P", us(800), func() { c.Ping(bg) })
+	actor("P", us(800), func() { c.Ping(pctx) })
 	actor("R", us(300), func() { c.Read(bg) })
 	actor("K", us(1500), func() { c.Close(websocket.StatusNormalClosure, "") })
 	if cfg.CloseNow {
@@ -140,6 +175,7 @@ func init() {
 		seed := fs.Int64("seed", 1, "seed")
 		out := fs.String("conn-trace", "", "per-connection hook trace for TraceRefine")
 		par := fs.Int("par", 8, "executions in flight")
+		kind := fs.String("kind", "mix", "scenario: base | n (CloseNow actor) | ctx (cancelled contexts) | mix")
 		fs.Parse(args)
 		rep := newReport("refine")
 		tr := &ws.Tracer{}
@@ -149,6 +185,17 @@ func init() {
 		for i := 0; i < *n; i++ {
 			rng := rand.New(rand.NewSource(*seed*7907 + int64(i)))
 			cfg := refineCfg{Seed: *seed*7907 + int64(i), Client: rng.Intn(2) == 0, PeerPong: rng.Intn(4) != 0, PeerClose: rng.Intn(3) == 0, PeerEcho: rng.Intn(8) != 0, CloseNow: rng.Intn(3) == 0}
+			if cfg.CloseNow && rng.Intn(2) == 0 {
+				cfg.CloseNow, cfg.Ctx = false, true
+			}
+			switch *kind {
+			case "base":
+				cfg.CloseNow, cfg.Ctx = false, false
+			case "n":
+				cfg.CloseNow, cfg.Ctx = true, false
+			case "ctx":
+				cfg.CloseNow, cfg.Ctx = false, true
+			}
 			sem <- struct{}{}
 			wg.Add(1)
 			go func() {
